@@ -134,6 +134,8 @@ def match_known(known, pid, run, v):
         if k.get('status') != 'open' or k.get('property') != pid: continue
         mt = k.get('match', {})
         if 'harness' in mt and mt['harness'] != run.harness: continue
+        if 'run' in mt and not re.fullmatch(mt['run'], run.name): continue
+        if 'aids' in mt and v['violation']['aid'] not in mt['aids']: continue
         if 'kind' in mt and mt['kind'] != v['violation']['kind']: continue
         if 'aid' in mt and mt['aid'] != v['violation']['aid']: continue
         if 'msg' in mt and not re.search(mt['msg'], v['violation']['msg']): continue
